@@ -654,7 +654,7 @@ package genetics
 //@   props C10 C02
 //@   mode nosafety
 //@   abstracts select
-//@   assume_pre duplicate, mutateAddNode, mateMultipoint, mateSinglePoint, compatibility, Int31n
+//@   assume_pre duplicate, mutateAddNode, mateMultipoint, mateMultipointAvg, mateSinglePoint, compatibility, Int31n
 //@   requires s != nil && pop != nil && len(s.Organisms) > 0 && (forall i :: 0 <= i && i < len(s.Organisms) ==> s.Organisms[i] != nil && s.Organisms[i].Genotype != nil)
 //@   requires [quotaCoversSuperChamp] 0 <= s.Organisms[0].superChampOffspring && s.Organisms[0].superChampOffspring <= s.ExpectedOffspring
 //@   requires neat.ErrNEATOptionsNotFound != nil
